@@ -24,7 +24,7 @@ ASSUMPTIONS = [
 ]
 BUDGET = {
     "quick": {"examples": 400, "workers": 8, "time_cap": 70},
-    "thorough": {"examples": 15000, "workers": 14, "time_cap": 1500},
+    "thorough": {"examples": 15000, "workers": 14, "time_cap": 900},
 }
 HOSTILE = ["..", ".", "", "a/../../b", "../x", "ABS", "ABS/sub", "../../..", "a/..", "./..", "..\\..", "x/", "/"]
 BENIGN = ["a", "b", "dir", "evil.txt", "f.bin"]
